@@ -28,8 +28,8 @@ class FromDelayed(IO):
                 dtype = getattr(meta, "dtype", None)
             return meta_from_array(meta, dtype=dtype)
         if dtype is not None:
-            return np.empty((0,) * len(shape), dtype=dtype)
-        return np.empty((0,) * len(shape))
+            return np.zeros((0,) * len(shape), dtype=dtype)
+        return np.zeros((0,) * len(shape))
 
     @functools.cached_property
     def chunks(self):
